@@ -343,19 +343,40 @@ Proof.
     apply Z.mul_le_mono_nonneg_r; [apply Z.mul_nonneg_nonneg; lia | exact K].
 Qed.
 
-(* with the literals of the current source (scalar 1/2, shift quadratic in the duration): at most D^2/32 ticks, which is
-   within a quarter of the duration exactly when the duration is at most one time unit (8 ticks) *)
-Corollary shifted_x_quarter x0 j n D : 0 <= j < n -> 0 <= D <= 8 ->
+(* the documented bound "within a quarter of the gate's own duration": holds whenever the shift is linear in the duration,
+   and for the quadratic formula of the current source exactly up to a duration of one time unit (8 ticks) *)
+Lemma offset_scalar_half : draw_offset_scalar_den = 2 * draw_offset_scalar_num /\ 0 < draw_offset_scalar_num.
+Proof. vm_compute. split; reflexivity. Qed.
+Lemma offset_power_cases : draw_offset_duration_power = 1 \/ draw_offset_duration_power = 2.
+Proof. vm_compute. first [left; reflexivity | right; reflexivity]. Qed.
+
+Corollary shifted_x_quarter x0 j n D : 0 <= j < n -> 0 <= D -> (draw_offset_duration_power = 1 \/ D <= 8) ->
   let x := shifted_x x0 (j, n) D in 0 < snd x /\ 4 * Z.abs (fst x - x0 * snd x) <= D * snd x.
 Proof.
-  intros Hj HD x. destruct (shifted_x_spec x0 j n D Hj) as [A [B _]]; [lia|]. fold x in A, B. split; [exact A|].
-  revert B. unfold offset_unit. change draw_offset_scalar_den with 2. change draw_offset_scalar_num with 1.
-  change draw_offset_duration_power with 2. change (8 ^ (2 - 1)) with 8. rewrite Z.pow_2_r. intros B. nia.
+  intros Hj HD Hc x. destruct (shifted_x_spec x0 j n D Hj HD) as [A [B _]]. fold x in A, B. split; [exact A|].
+  destruct offset_scalar_half as [S1 S2]. revert B. unfold offset_unit. rewrite S1.
+  set (sn := draw_offset_scalar_num) in *. set (off := Z.abs (fst x - x0 * snd x)). set (den := snd x) in *.
+  assert (Hoff : 0 <= off) by apply Z.abs_nonneg.
+  destruct offset_power_cases as [P|P]; rewrite P.
+  - change (8 ^ (1 - 1)) with 1. rewrite Z.pow_1_r. intros B.
+    assert (H2 : sn * (4 * off) <= sn * (D * den)) by nia.
+    apply (Z.mul_le_mono_pos_l _ _ sn S2). exact H2.
+  - destruct Hc as [Hc|Hc]; [congruence|]. change (8 ^ (2 - 1)) with 8. rewrite Z.pow_2_r. intros B.
+    assert (H0 : D * D <= 8 * D) by nia.
+    assert (H1 : sn * (D * D) * den <= sn * (8 * D) * den).
+    { apply Z.mul_le_mono_nonneg_r; [lia|]. apply Z.mul_le_mono_nonneg_l; lia. }
+    assert (H2 : sn * (4 * off) <= sn * (D * den)) by nia.
+    apply (Z.mul_le_mono_pos_l _ _ sn S2). exact H2.
 Qed.
 
-Lemma shifted_x_exceeds_quarter : exists x0 j n D, 0 <= j < n /\ 0 <= D /\
+(* beyond one time unit the quadratic formula leaves the quarter: two gates of duration 2 are shifted by half of it *)
+Lemma shifted_x_exceeds_quarter : draw_offset_duration_power = 2 -> exists x0 j n D, 0 <= j < n /\ 0 <= D /\
   let x := shifted_x x0 (j, n) D in ~ (4 * Z.abs (fst x - x0 * snd x) <= D * snd x).
-Proof. exists 0, 0, 2, 16. vm_compute. repeat split; try discriminate. intros H. apply H. reflexivity. Qed.
+Proof.
+  intros P. exists 0, 0, 2, 16. split; [lia|]. split; [lia|]. unfold shifted_x, offset_num, offset_den. rewrite P.
+  destruct offset_scalar_half as [S1 S2]. rewrite S1. cbn [fst snd Z.leb]. change (2 <=? 1) with false. cbv iota.
+  cbn [fst snd]. change (8 ^ (2 - 1)) with 8. change (16 ^ 2) with 256. nia.
+Qed.
 
 (* ------------------------------------------------------------------ pivots *)
 Lemma pivot_x_is_start e : pivot_x e = e_start e.
